@@ -65,7 +65,23 @@ def run_script(R, exe, env, script, out, n, stderr_path):
     while start < n and restarts < 25:
         o = out + ".%d" % restarts
         e = dict(os.environ); e.update(SAN_ENV); e.update(env)
-        r = subprocess.run([exe, str(R.seed), script, o, str(start)], capture_output=True, text=True, env=e, timeout=3000)
+        try:
+            r = subprocess.run([exe, str(R.seed), script, o, str(start)], capture_output=True, text=True, env=e, timeout=2400)
+        except subprocess.TimeoutExpired:
+            # a call that does not return: report it and go on behind it
+            parts.append(o)
+            last = start - 1
+            for l in open(o, errors="replace"):
+                if l.startswith('{"i"'):
+                    try:
+                        last = json.loads(l)["i"]
+                    except ValueError:
+                        pass
+            hung = open(script).read().splitlines()[last + 1] if last + 1 < n else "?"
+            R.violation("a call did not return within 2400 s (%s): %s" % (os.path.basename(out), hung[:200]), {"script_line": hung, "configs": [os.path.basename(out)]}, name="hang")
+            start = last + 2
+            restarts += 1
+            continue
         parts.append(o)
         if r.returncode == 0:
             break
